@@ -3,6 +3,7 @@
   inside it, the process holds exactly the descriptors its tables account for.
 -/
 import Fbr.Lemmas.PtLedgerOps
+import Fbr.Lemmas.PtStepTr
 
 namespace Fbr.PtRefs
 
@@ -371,7 +372,8 @@ theorem dropAll_linv (l : List (Ino × IData)) (x : St) (h : LInv (withData x l)
       have : mdel ((i, d) :: r) i = mdel r i := by simp [mdel, List.filter]
       rw [this]; exact mdel_of_not_mem hni
     rw [e1] at h1
-    have h2 := dropIData_linv (s := withData (withData x ((i, d) :: r)) r) d (by simpa using h1)
+    have h2 := dropIData_linv (s := withData (withData x ((i, d) :: r)) r) (t := 0) (m := 0) d
+      (by simpa using h1)
     rw [dropIData_withData, dropIData_withData] at h2
     exact h2.of_eq ⟨rfl, rfl, rfl, rfl, rfl, rfl⟩
 
@@ -387,8 +389,8 @@ theorem clearAll_linv {s : St} (h : LInv s 0 0) : LInv (clearAll s) 0 0 := by
     · intro hd hc; simp [withData] at hc
   have h1 := dropAll_linv s.data _ h0
   refine h1.of_eq ⟨?_, rfl, rfl, rfl, rfl, rfl⟩
+  show (dropAll _ s.data).data = []
   rw [data_of_tables (dropAll_tables _ _)]
-  rfl
 
 theorem importRoot_linv (e : Env) {s : St} (h : LInv s 0 0) (root : HAns) :
     LInv (importRoot e s root).1 0 0 := by
